@@ -737,6 +737,25 @@ impl Repository {
 }
 
 
+//------------ Verification access -------------------------------------------
+
+/// Access to the private path functions for verification.
+#[cfg(routinator_verif)]
+impl Store {
+    /// Returns the path used for the trust anchor certificate at `uri`.
+    pub fn verif_ta_path(&self, uri: &TalUri) -> PathBuf {
+        self.ta_path(uri)
+    }
+
+    /// Returns the path used for a stored publication point.
+    pub fn verif_point_path(
+        &self, rpki_notify: Option<&uri::Https>, manifest_uri: &uri::Rsync,
+    ) -> PathBuf {
+        Repository::new(self, rpki_notify.cloned()).point_path(manifest_uri)
+    }
+}
+
+
 //------------ StoredPoint ---------------------------------------------------
 
 /// The stored information of a publication point.
